@@ -64,18 +64,37 @@ def sig_of(o):
 
 
 def run_shard(args):
+    """One harness process per shard. Exit code 3 = the watchdog ended the process inside a case that did not
+    return (recorded in <out>.abort): the verdict for that case is `hang`, and the shard resumes after it."""
     grammar, cases, out, shard, n, variants = args
-    p = vlib.run_bin("inputs", [grammar, cases, out, f"{shard}/{n}"], timeout=3000, env={"VERIF_VARIANTS": str(variants)})
-    return shard, p.returncode, p.stderr[-2000:]
+    env = {"VERIF_VARIANTS": str(variants)}
+    hangs = []
+    for _ in range(50):
+        p = vlib.run_bin("inputs", [grammar, cases, out, f"{shard}/{n}"], timeout=3000, env=env)
+        if p.returncode != 3:
+            return shard, p.returncode, p.stderr[-2000:], hangs
+        with open(out + ".abort") as f:
+            ab = json.load(f)
+        hangs.append(ab)
+        env["VERIF_FROM"] = str(ab["case"] + 1)
+    return shard, 3, "too many aborted cases", hangs
 
 
 def execute(ck, label, grammar, cases, nshards, variants):
     outs = [os.path.join(ck.dir, f"obs_{label}_{i}.ndjson") for i in range(nshards)]
     with concurrent.futures.ThreadPoolExecutor(max_workers=nshards) as ex:
-        for shard, rc, err in ex.map(run_shard, [(grammar, cases, outs[i], i, nshards, variants) for i in range(nshards)]):
+        aborted = []
+        for shard, rc, err, hangs in ex.map(run_shard, [(grammar, cases, outs[i], i, nshards, variants) for i in range(nshards)]):
             if rc != 0:
                 raise vlib.ToolError(f"inputs harness shard {shard} failed rc={rc}: {err}")
+            aborted += hangs
     rows = []
+    case_rows = vlib.read_ndjson(cases)
+    for ab in aborted:
+        c = case_rows[ab["case"]]
+        rows.append({"type": "obs", "case": ab["case"], "entry": c["entry"], "phase": c["phase"], "tpl": c["tpl"],
+                     "field": c["field"], "mut": c["mut"], "res": "hang",
+                     "detail": f"the step did not return: {ab['cpu_ms']} ms CPU / {ab['wall_ms']} ms wall ({ab['kind']}); process ended by the watchdog"})
     for o in outs:
         rows += vlib.read_ndjson(o)
     return rows
@@ -204,7 +223,9 @@ def replay(path):
 def selftest():
     """Negative control on the model: with each deviation of the pinned tree switched on, TLC must report NoCrash."""
     ok = True
-    for dev, entries in [("HelloEndsAfterRandom", ["dtls_clienthello"]), ("SetExtensionSlicesPast", ["rtp"])]:
+    for dev, entries in [("HelloEndsAfterRandom", ["dtls_clienthello", "dtls_client"]), ("SetExtensionSlicesPast", ["rtp"]),
+                         ("EmptyTurnData", ["turn_udp"]), ("TurnTcpFrameLength", ["turn_tcp"]), ("MidPlusOneOverflows", ["pc_sdp"]),
+                         ("StapAAmplifies", ["rtp_transport"]), ("MediaSectionsUnbounded", ["pc_sdp"])]:
         cfg = os.path.join(vlib.SPEC, "MC_Inputs_selftest.gen.cfg")
         write_cfg(cfg, entries, ALL_MUTS, 1, emit=False, deviations=[dev])
         res = vlib.tlc("MC_Inputs", os.path.basename(cfg), timeout=600, workers=2, tag="MC_Inputs_selftest")
